@@ -276,8 +276,9 @@ class AbstractAst:
         try:
             module = importlib.import_module(from_name)
             self.modules[module_name] = module
-        except ImportError:
-            raise RTAMTException('The module {} cannot be loaded'.format(from_name))
+        except Exception as err:
+            # not found, or the module's own code fails while it is imported
+            raise RTAMTException('The module {} cannot be loaded: {}'.format(from_name, err))
 
     def set_var_topic(self, var_name, var_topic):
         if not var_name in self.vars:
